@@ -32,6 +32,11 @@ func TestWorld(t *testing.T) {
 func run(prop string) {
 	switch prop {
 	case "C30":
+		if simrt.Choose(8, "level") == 7 {
+			simrt.Probe("agent_level_run")
+			runC30Agent()
+			return
+		}
 		runC30()
 	default:
 		panic("W-sleep does not decide " + prop)
